@@ -47,7 +47,8 @@ func retOf(h *H) func() (any, bool) {
 type H struct {
 	State int    `json:"state"` // 1 | 2
 	Ty    string `json:"ty"`
-	Ret   string `json:"ret,omitempty"` // "" = returns its argument; else the dynamic value it always returns
+	Ret   string `json:"ret,omitempty"`    // "" = returns its argument; else the dynamic value it always returns
+	Strm  bool   `json:"stream,omitempty"` // declared with WithStreamStatePre/PostHandler
 }
 
 type Op struct {
@@ -235,10 +236,10 @@ func build(c *Case, plans []runPlan, extra bool) (bo BuildObs) {
 			case "node", "pass":
 				var opts []compose.GraphAddNodeOpt
 				if o.Pre != nil {
-					opts = append(opts, newPreHandler(o.Pre.Ty, o.Pre.State, retOf(o.Pre)))
+					opts = append(opts, newPreHandler(o.Pre.Ty, o.Pre.State, retOf(o.Pre), o.Pre.Strm))
 				}
 				if o.Post != nil {
-					opts = append(opts, newPostHandler(o.Post.Ty, o.Post.State, retOf(o.Post)))
+					opts = append(opts, newPostHandler(o.Post.Ty, o.Post.State, retOf(o.Post), o.Post.Strm))
 				}
 				if o.K == "node" {
 					key := o.Key
@@ -941,6 +942,12 @@ func (engine) Run(ci any) lib.Result {
 	}
 	if nh > 0 {
 		tags = append(tags, "handlers:yes")
+	}
+	for _, o := range c.Ops {
+		if (o.Pre != nil && o.Pre.Strm) || (o.Post != nil && o.Post.Strm) {
+			tags = append(tags, "kind:streamhandler")
+			break
+		}
 	}
 	if nbadh > 0 {
 		tags = append(tags, "badhandler:yes")
